@@ -195,6 +195,14 @@ func TestVerifRace(t *testing.T) {
 		{{"AOFMD5", "0", "10"}, {"SET", "k", "m5", "POINT", "2", "2"}},
 		{{"GC"}, {"FLUSHDB"}},
 		{{"READONLY", "no"}, {"SET", "k", "ro", "POINT", "2", "2"}},
+		// readers share Server.mu: scratch state shared between two read commands
+		{{"SCAN", "k", "LIMIT", "2"}, {"SCAN", "k", "CURSOR", "1", "LIMIT", "2", "DESC"}},
+		{{"NEARBY", "k", "LIMIT", "2", "POINT", "1", "1"}, {"WITHIN", "k", "LIMIT", "2", "BOUNDS", "-10", "-10", "10", "10"}},
+		{{"SEARCH", "k", "LIMIT", "1"}, {"SCAN", "k", "WHERE", "f", "0", "9", "MATCH", "a*"}},
+		{{"GET", "k", "a", "WITHFIELDS"}, {"FGET", "k", "a", "f"}},
+		{{"EVALRO", "return tile38.call('SCAN','k','IDS')", "0"}, {"EVALROSHA", "0000000000000000000000000000000000000000", "0"}},
+		{{"INTERSECTS", "k", "CLIP", "BOUNDS", "0", "0", "3", "3"}, {"TEST", "POINT", "1", "1", "WITHIN", "BOUNDS", "0", "0", "3", "3"}},
+		{{"SCAN", "k", "WHEREEVAL", "return FIELDS.f == 1", "0", "IDS"}, {"SCAN", "k", "WHEREEVAL", "return FIELDS.f ~= 1", "0", "COUNT"}},
 	}
 	iters := 300
 	if v, ok := job.Params["iters"].(float64); ok {
@@ -256,6 +264,16 @@ func TestVerifRace(t *testing.T) {
 		if pi%job.NShards != job.Shard {
 			continue
 		}
+		if sc, err := net.Dial("tcp", addr); err == nil {
+			// a few objects of every kind for the pair to work on
+			r := bufio.NewReader(sc)
+			for _, cmd := range [][]string{{"SET", "k", "a", "FIELD", "f", "1", "POINT", "1", "1"}, {"SET", "k", "b", "POINT", "2", "2"}, {"SET", "k", "ab", "FIELD", "f", "2", "POINT", "1.5", "1.5"},
+				{"SET", "k", "s", "STRING", "v"}, {"SET", "k", "t", "STRING", "w"}} {
+				sc.Write(raceCmd(cmd...))
+				raceReadReply(r)
+			}
+			sc.Close()
+		}
 		var wg sync.WaitGroup
 		for side := 0; side < 2; side++ {
 			wg.Add(1)
@@ -300,7 +318,7 @@ func TestVerifRace(t *testing.T) {
 	// reaching this point with no report means none was observed in this run
 	res := map[string]any{"check": "c07race", "shard": job.Shard, "evaluations": execs, "transitions": execs, "states": len(pairs),
 		"traces_validated_against_impl": execs, "exhaustive": false, "caps": []string{"free-running -race pass: schedules are sampled, not enumerated"},
-		"rule": "free-running -race build of the unmodified package: 34 conflicting command pairs x N iterations on real connections, 2 live fences, a follower in the same process being read, subscribers coming and going, a webhook endpoint", "wall_s": time.Since(start).Seconds()}
+		"rule": "free-running -race build of the unmodified package: 41 command pairs (34 conflicting, 7 reader/reader) x N iterations on real connections, 2 live fences, a follower in the same process being read, subscribers coming and going, a webhook endpoint", "wall_s": time.Since(start).Seconds()}
 	out, _ := json.Marshal(res)
 	os.WriteFile(job.Out, out, 0644)
 	b := make([]byte, 16)
